@@ -43,6 +43,14 @@ TOut == /\ Is("out")
 IsText(g) == g \notin {0, 32, -1}
 MaxRow(F) == LET rs == { F.pos[i][1] : i \in 1..Len(F.pos) } IN CHOOSE m \in rs : \A x \in rs : x <= m
 
+\* the application's right-side prompt (narrow characters): the library may show it flush right on the last row of the
+\* frame, beyond the end of the text; the property does not ask for it, it only must not be anywhere else
+RPrompt == IF "rprompt" \in DOMAIN Ev THEN Ev.rprompt ELSE <<>>
+IsRPromptCell(F, fr, x, g) ==
+  /\ Len(RPrompt) > 0 /\ fr = MaxRow(F)
+  /\ x >= W - Len(RPrompt) /\ g = RPrompt[x - (W - Len(RPrompt)) + 1]
+  /\ \A cell \in F.cells : cell[1] = fr => cell[2] < W - Len(RPrompt)      \* (beyond the text of that row)
+
 \* the comparison for a frame F anchored with its row 0 at grid row top
 ShowsExactly(F, top) ==
   /\ \A cell \in F.cells : LET y == top + cell[1] IN (y >= 0 /\ y < H) => grid[y][cell[2]] = cell[3]
@@ -51,6 +59,7 @@ ShowsExactly(F, top) ==
           \A x \in 0..(W - 1) :
              IsText(grid[y][x]) => \/ <<fr, x, grid[y][x]>> \in F.cells
                                    \/ (fr \in F.nlrows /\ x < F.indent)          \* decoration of continuation rows
+                                   \/ IsRPromptCell(F, fr, x, grid[y][x])
 NoGhosts(F, top) ==
   LET bottom == top + MaxRow(F)
       pb == prevBottom - scrolled
